@@ -134,7 +134,7 @@ func proveEQWhereNonEmpty(g *lin.Ctx, nonEmpty, a, b *lin.Expr) bool {
 func CheckC16(c *Ctx) {
 	run := c.Run
 	run.Technique = "token-count abstract interpretation of every stage body in helper/ (lengths, consumption, anchors, capacities as symbolic expressions), compared with a frozen slice-model table by exact linear entailment"
-	run.Explanation = "For every stream helper the number of elements on each output, the number of elements taken from each input, whether each input is consumed to the end, the anchor of the first output element, the fill prefix, the output capacity and close-on-all-paths are derived from the helper's current source for symbolic input lengths and parameters, and proved equal to the slice model for ALL lengths and parameters in the helper's domain. Values: for the 27 arithmetic and copying helpers (Abs … Divide, Change/ChangeRatio/ChangePercent, Skip/Head/First/Buffered/Waitable/Shift/SyncPeriod/Duplicate, Since) the term every output element carries is derived (closures inlined, delays from the anchors) and compared with the model term as a rational function; the values of Map/Apply/Operate/Filter/MapWithPrevious are those of the caller's function, Last/Echo/Count/SliceToChan values are not decided. Count's counter is decided on the SSA form of its stage: the value sent is a loop-carried counter that starts at `from` itself and is advanced by adding 1. Seq and Field (no count model) are decided on the SSA form of their goroutine: Seq sends the loop-carried counter started at `from`, advanced by `increment`, while counter < `to` (the parameters themselves); Field sends Interface() of the field selected by the complete Index path of the StructField looked up by name, or by FieldByName(name)."
+	run.Explanation = "For every stream helper the number of elements on each output, the number of elements taken from each input, whether each input is consumed to the end, the anchor of the first output element, the fill prefix, the output capacity and close-on-all-paths are derived from the helper's current source for symbolic input lengths and parameters, and proved equal to the slice model for ALL lengths and parameters in the helper's domain. Values: for the 27 arithmetic and copying helpers (Abs … Divide, Change/ChangeRatio/ChangePercent, Skip/Head/First/Buffered/Waitable/Shift/SyncPeriod/Duplicate, Since) the term every output element carries is derived (closures inlined, delays from the anchors) and compared with the model term as a rational function; the values of Map/Apply/Operate/Filter/MapWithPrevious are those of the caller's function, Last/Echo/Count/SliceToChan values are not decided. Count's counter is decided on the SSA form of its stage: the value sent is a loop-carried counter that starts at `from` itself and is advanced by adding 1. Seq and Field (no count model) are decided on the SSA form of their goroutine: Seq sends the loop-carried counter started at `from`, advanced by `increment`, while counter < `to` (the parameters themselves); Field sends Interface() of the field selected by the complete Index path of the StructField looked up by name, or by FieldByName(name). RoundDigit's result is the SSA term math.Round(n*10^d)/10^d (half away from zero)."
 	run.Trusted = []string{"go/types", "helper.Ring fullness model (occupancy = min(puts,size) - gets)", "slice-model table HelperModels (DESIGN appendix B)", "Fourier–Motzkin entailment (internal/lin)"}
 	// every channel function of helper/ must be modelled or explicitly exempt
 	models := map[string]helperModel{}
@@ -442,6 +442,7 @@ func (c *Ctx) helperValues() {
 	c.countValues()
 	c.seqValues()
 	c.fieldValues()
+	c.roundDigitValue()
 	c.chanToSliceStartsEmpty()
 }
 
